@@ -99,7 +99,9 @@ def mkPrims (o : Oracle) : Prims DS :=
       | some (_, _, 'k') => .ok { s with n := s.n + 1 }
       | some (_, _, 'n') => .nonfatal
       | some (_, _, 'i') => .invalidNonce
-      | _ => .fatal
+      | some (_, _, _) => .fatal
+      -- the model executes a transaction the implementation did not execute: make it visible
+      | none => .ok { s with n := s.n + 1, log := s.log ++ "?" }
     roots := fun _ _ => o.roots
     eciFull := fun _ _ => o.eciFull
     eciEmpty := o.eciEmpty
@@ -405,7 +407,9 @@ def run (lines : Array String) : Driver.Report := Id.run do
           | .accept => "accept"
           | .reject e => s!"reject:{e.name}"
           | _ => "bad-response"
-        r := r.check n line impl s!"{v} cs={kv iws "cs"} xo={kv iws "xo"} | exec={st.execStr a'.exec} rs={rs} ph={phStr a'.work.log}"
+        -- the post_execute span exists even when the phase fails: a failed post still shows `O`
+        let plog := if kind = "post" then a'.work.log ++ "O" else a'.work.log
+        r := r.check n line impl s!"{v} cs={kv iws "cs"} xo={kv iws "xo"} | exec={st.execStr a'.exec} rs={rs} ph={phStr plog}"
         r := r.bump s!"process_{verdict}"
         r := r.bump s!"process_from_{execKind a.exec}"
         r := r.bump s!"exec_after_process_{execKind a'.exec}"
@@ -447,6 +451,7 @@ def run (lines : Array String) : Driver.Report := Id.run do
           let staged := match a'.writeBatch with | some w => w.log | none => a'.work.log
           -- the price span is created before the failing put: a failed price phase still shows `$`
           let staged := if kind = "prices" ∧ bi.np > 0 then staged ++ "$" else staged
+          let staged := if kind = "post" then staged ++ "O" else staged
           let tail := s!"cs={kv iws "cs"} xo={kv iws "xo"} | exec={st.execStr a'.exec} ph="
           match resp with
           | .finalized fr =>
